@@ -202,7 +202,18 @@ def gen_spec(rng: random.Random, *, for_fit: bool = True, small: bool = False) -
         n_gauss = rng.choice([1, 2, 3]) if multi else 1
         if multi:
             centers, widths, scales = ["irf.center"], ["irf.width"], []
+            negexpr = n_gauss > 1 and rng.random() < 0.3
+            if negexpr:
+                feats.append("nonneg-expression")
             for g in range(1, n_gauss):
+                if negexpr and g == 1:
+                    # an expression parameter that carries non-negative (as inherited from a group default) and
+                    # evaluates negative: its optimiser-space record is log(negative) = NaN
+                    irf_params.append(["center2", 0.0, {"expr": "$irf.center - 1.5", "non-negative": True}])
+                    irf_params.append([f"width{g + 1}", round(width * (1 + 0.5 * g), 4), {"vary": False}])
+                    centers.append("irf.center2")
+                    widths.append("irf.width2")
+                    continue
                 irf_params.append([f"center{g + 1}", round(center + 0.3 * g, 4), {"vary": False}])
                 irf_params.append([f"width{g + 1}", round(width * (1 + 0.5 * g), 4), {"vary": False}])
                 centers.append(f"irf.center{g + 1}")
@@ -347,6 +358,7 @@ def gen_spec(rng: random.Random, *, for_fit: bool = True, small: bool = False) -
             "noise": rng.choice([0.0, 0.01, 0.05]),
             "amp": _r(rng, 0.5, 3.0),
             "layout": rng.choice(["time-spectral", "spectral-time"]),
+            "order": rng.choice(["C", "C", "C", "F"]),  # memory order of the caller's arrays
             "weight": None,
         }
 
@@ -499,15 +511,20 @@ def build_datasets(spec: dict) -> dict:
     for label, ds in spec["data"].items():
         arr = synth_data(ds)
         coords = {"time": np.asarray(ds["time"], dtype=float), "spectral": np.asarray(ds["spectral"], dtype=float)}
+        fortran = ds.get("order") == "F"
         if ds["layout"] == "time-spectral":
-            da = xr.DataArray(arr.copy(), coords=coords, dims=("time", "spectral"))
+            values = np.asfortranarray(arr) if fortran else arr.copy()
+            da = xr.DataArray(values, coords=coords, dims=("time", "spectral"))
         else:
-            da = xr.DataArray(arr.T.copy(), coords=coords, dims=("spectral", "time"))
+            values = np.asfortranarray(arr.T) if fortran else arr.T.copy()
+            da = xr.DataArray(values, coords=coords, dims=("spectral", "time"))
         dataset = da.to_dataset(name="data")
         if ds.get("weight"):
             w = ds["weight"]
             rg = np.random.default_rng(w["seed"])
             warr = rg.uniform(w["lo"], w["hi"], da.shape)
+            if fortran:
+                warr = np.asfortranarray(warr)
             dataset["weight"] = (da.dims, warr)
         result[label] = dataset
     return result
